@@ -203,3 +203,24 @@ Example moved_would_hold :
   | _ => False
   end.
 Proof. vm_compute. reflexivity. Qed.
+
+(* ---- C09 at dimensionality 0: the full statement (every injection point, no exclusion) is false of the faithful model ---- *)
+Definition C09_rank0_full : Prop :=
+  forall cfg h k, hist_dom0 cfg h (st0 (Some k)) ->
+    let '(outs, s') := run_rank0 cfg h (st0 (Some k)) in Good cfg s' /\ Forall not_err outs.
+
+(* array<E, 0, A> a(E{7}, A{1}): events: the allocation, the element copy; the copy throws: the block allocated in the
+   mem-initializer belongs to no array object and is never released *)
+Definition h_ctor0 : list lop0 := [ZCtorElem 0 1 7].
+
+Theorem ctor_leak_refuted0 : ~ C09_rank0_full.
+Proof.
+  intros H. specialize (H cfg_tracked h_ctor0 2%nat).
+  assert (D : hist_dom0 cfg_tracked h_ctor0 (st0 (Some 2%nat))).
+  { cbn. split; auto. split; [unfold NP; lia|reflexivity]. }
+  specialize (H D). remember (run_rank0 cfg_tracked h_ctor0 (st0 (Some 2%nat))) as R eqn:E. vm_compute in E. subst R.
+  destruct H as [(I & _) _].
+  destruct (inv_noleak _ _ _ I 0%nat _ eq_refl eq_refl) as [[]|[r (a & Ha & _)]].
+  unfold get_slot in Ha; cbn in Ha.
+  do 9 (destruct r as [|r]; [discriminate|]). destruct r; discriminate.
+Qed.
